@@ -997,3 +997,204 @@ Proof.
   rewrite !plen_app. pose proof (wenc_field_plen_pos (id, w0)).
   pose proof (plen_nonneg (wenc (map (pair id) ws))). pose proof (plen_nonneg (wenc (msg_wire fs2))). lia.
 Qed.
+
+(* ------------------------------------------------------------------ a field value in its message: final slice and first tag *)
+Lemma wfld_wire S lbl t v num : wf_fld S lbl t v = true -> 1 <= num <= MAX_FIELD_NUMBER -> wf_wire (wfld num v) = true.
+Proof.
+  intros H Hn. destruct (wfld_fvals _ _ _ _ num H) as [E _]. rewrite E. apply map_pair_wf; [exact Hn|apply (fvals_wf _ _ _ _ H)].
+Qed.
+
+Lemma val_final S lbl t num v pre w2 :
+  wf_fld S lbl t v = true -> 1 <= num <= MAX_FIELD_NUMBER -> inert num w2 ->
+  plen (pre ++ wenc (wfld num v) ++ wenc w2) < 9223372036854775808 ->
+  gbp_final all_fixes (pre ++ wenc (wfld num v) ++ wenc w2) lbl t num (node_type lbl t) (plen pre) (plen pre)
+  = GFoundA (node_type lbl t) (node_raw lbl num v) (size_of v).
+Proof.
+  intros Hwf Hn Hin Hlen. pose proof (wfld_wire _ _ _ _ num Hwf Hn) as Hww.
+  destruct lbl as [|p|kk].
+  - destruct (wf_singular_facts _ _ _ Hwf) as [Hw [Hwt [Htt Ee]]].
+    rewrite (wfld_single _ _ _ num Hwf) in *. cbn [wenc flat_map] in *. rewrite app_nil_r in *.
+    cbn [wf_wire forallb] in Hww. apply andb_true_iff in Hww as [Hf _].
+    cbn [node_type node_raw]. rewrite (gf_record pre num (sval v) (wenc w2) LSingular t num _ (plen pre) Hf eq_refl (eq_sym Hwt) Htt).
+    rewrite Ee. f_equal. destruct v; cbn [wf_fld] in Hwf; try discriminate; reflexivity.
+  - destruct v as [| | |q vs|]; cbn [wf_fld] in Hwf; try discriminate. fold (wf_fld S (LRepeated p) t (VList q vs)) in Hwf.
+    assert (Hwf' : wf_fld S (LRepeated p) t (VList q vs) = true) by exact Hwf.
+    destruct (wf_list_facts _ _ _ _ _ num Hwf') as [Hq [Hne [Hall Hcase]]].
+    cbn [node_type node_raw size_of]. destruct q.
+    + destruct Hcase as [k [xs [-> [Hk [-> [Hxs [Ew Hl]]]]]]]. rewrite Ew in *. cbn [wenc flat_map] in *. rewrite app_nil_r in *.
+      rewrite !plen_app in Hlen. unfold wenc_field in Hlen. cbn [fst snd wenc_val] in Hlen. rewrite !plen_app in Hlen.
+      pose proof (plen_nonneg pre). pose proof (plen_nonneg (wenc w2)). pose proof (plen_nonneg (penc k xs)).
+      pose proof (plen_nonneg (varint_enc (num * 8 + wt_of_wval (WBytes (penc k xs))))). pose proof (plen_nonneg (varint_enc (plen (penc k xs)))).
+      rewrite (gf_packed_list pre num k xs (wenc w2) (LRepeated p) (TScalar k) T_LIST Hn Hk Hxs); [|lia|symmetry; exact Hq|reflexivity|left; reflexivity].
+      f_equal. unfold plen. rewrite map_length. reflexivity.
+    + rewrite Hcase in *.
+      rewrite (gf_run pre num (map sval vs) w2 (LRepeated p) t T_LIST Hww Hin); [|symmetry; exact Hq|left; reflexivity].
+      f_equal. unfold plen. rewrite map_length. reflexivity.
+  - destruct v as [| | | |kvs]; cbn [wf_fld] in Hwf; try discriminate. fold (wf_fld S (LMap kk) t (VMap kvs)) in Hwf.
+    assert (Hwf' : wf_fld S (LMap kk) t (VMap kvs) = true) by exact Hwf.
+    destruct (wf_map_facts _ _ _ _ num Hwf') as [Hne [Ew Hall]].
+    cbn [node_type node_raw size_of]. rewrite Ew in *.
+    assert (Em : map (erec num) (map entry_of kvs) = map (pair num) (map (fun e => WBytes (ebody e)) (map entry_of kvs))).
+    { rewrite !map_map. reflexivity. }
+    rewrite Em in *.
+    rewrite (gf_run pre num _ w2 (LMap kk) t T_MAP Hww Hin); [|reflexivity|right; reflexivity].
+    f_equal. unfold plen. rewrite !map_length. reflexivity.
+Qed.
+
+Lemma val_tag S lbl t num v pre rest :
+  wf_fld S lbl t v = true -> 1 <= num <= MAX_FIELD_NUMBER ->
+  exists w0 ws, fvals v = w0 :: ws /\ wf_wval w0 = true /\ wf_wire (map (pair num) ws) = true /\
+    ctag (pre ++ wenc (wfld num v) ++ rest) (plen pre) = Some (num, wt_of_wval w0, plen (tagb num (wt_of_wval w0))) /\
+    pre ++ wenc (wfld num v) ++ rest = (pre ++ tagb num (wt_of_wval w0)) ++ wenc_val w0 ++ wenc (map (pair num) ws) ++ rest.
+Proof.
+  intros Hwf Hn. pose proof (wfld_wire _ _ _ _ num Hwf Hn) as Hww.
+  destruct (wfld_fvals _ _ _ _ num Hwf) as [E Hne]. destruct (fvals v) as [|w0 ws]; [contradiction|].
+  exists w0, ws. rewrite E in *. cbn [map] in *. cbn [wf_wire forallb] in Hww. apply andb_true_iff in Hww as [Hf Hws].
+  split; [reflexivity|]. split; [unfold wf_wfield in Hf; cbn [fst snd] in Hf; apply andb_true_iff in Hf as [_ Hf]; exact Hf|].
+  split; [exact Hws|]. rewrite wenc_cons, <- !app_assoc. split.
+  - destruct (record_skip pre (num, w0) (wenc (map (pair num) ws) ++ rest) Hf) as [Hc _]. exact Hc.
+  - rewrite wenc_field_tagb. cbn [fst snd]. rewrite <- !app_assoc. reflexivity.
+Qed.
+
+(* ------------------------------------------------------------------ the main induction *)
+(* the local closure [after] of gbp_loop, with every repair applied *)
+Definition after_f (S : schema) (p' : list pstep) (buf : list Z) (r : sres) (lbl' : flabel) (t' : ftype) (num' tt : Z) : gout :=
+  match r with
+  | SFound start rd1 =>
+    if is_nil p' then gbp_final all_fixes buf lbl' t' num' tt start rd1
+    else match ctag buf rd1 with
+         | None => GErrA
+         | Some (_, _, n) => gbp_loop all_fixes S buf p' (rd1 + n) false lbl' t' num'
+         end
+  | SNotFound => if is_nil p' then GNotFoundA else GErrA
+  | SErrNode => GErrA
+  | SErrRaw => GErrA
+  | SPanic => GPanicA
+  end.
+
+Lemma gbp_index_unfold S buf i p' rd isroot q t num :
+  gbp_loop all_fixes S buf (PIndex i :: p') rd isroot (LRepeated q) t num =
+  after_f S p' buf (search_index all_fixes buf rd i (elem_wt t) (desc_packed (LRepeated q) t) num) (LRepeated q) t num (kind_of_type t).
+Proof. reflexivity. Qed.
+
+Lemma gbp_strkey_unfold S buf k p' rd isroot kk t num :
+  gbp_loop all_fixes S buf (PStrKey k :: p') rd isroot (LMap kk) t num =
+  after_f S p' buf (search_key (Datatypes.S (length buf)) buf
+                      (fun r => match aread_string buf r with Some (b, r') => Some (bytes_eqb b k, r') | None => None end) rd num)
+          LSingular t 0 (kind_of_type t).
+Proof. reflexivity. Qed.
+
+Lemma gbp_intkey_unfold S buf k p' rd isroot kk t num :
+  gbp_loop all_fixes S buf (PIntKey k :: p') rd isroot (LMap kk) t num =
+  after_f S p' buf (search_key (Datatypes.S (length buf)) buf
+                      (fun r => match aread_int buf r kk with Some (x, r') => Some (x =? k, r') | None => None end) rd num)
+          LSingular t 0 (kind_of_type t).
+Proof. reflexivity. Qed.
+
+(* a field step at a message position whose prefix computation gave (plen payload, plen pre') and the buffer buf' *)
+Lemma gbp_field_unfold S buf s p' rd isroot lbl name num md pre' payload :
+  is_field_step s = true -> (lbl = LSingular \/ exists q, lbl = LRepeated q) ->
+  find_msg S name = Some md -> msg_entry isroot buf rd pre' payload ->
+  gbp_loop all_fixes S buf (s :: p') rd isroot lbl (TMsg name) num =
+  let buf' := pre' ++ payload in
+  match s, step_field md s with
+  | PField n, None =>
+    match search_field_id (Datatypes.S (length buf')) buf' (plen pre') n (plen pre' + plen payload) with
+    | SFound _ _ => GUnmodelled
+    | r => after_f S p' buf' r lbl (TMsg name) num K_MESSAGE
+    end
+  | _, Some fd =>
+    after_f S p' buf' (search_field_id (Datatypes.S (length buf')) buf' (plen pre') (fd_num fd) (plen pre' + plen payload))
+            (fd_label fd) (fd_type fd) (fd_num fd) (node_type (fd_label fd) (fd_type fd))
+  | _, None => GErrA
+  end.
+Proof.
+  intros Hs Hlbl Hfind [Hpre Hbuf].
+  destruct s; try discriminate; destruct Hlbl as [->|[q ->]]; cbn [gbp_loop]; rewrite Hpre; cbv zeta; rewrite Hbuf, Hfind; reflexivity.
+Qed.
+
+Lemma path_okb_tail s p : path_okb (s :: p) = true -> step_okb s = true /\ path_okb p = true.
+Proof. unfold path_okb. cbn [forallb]. intros H. apply andb_true_iff in H. exact H. Qed.
+
+Section Main.
+  Variable S : schema.
+  Hypothesis HS : schema_okb S = true.
+
+  Definition key_kind_ok (lbl : flabel) : Prop :=
+    match lbl with LMap kk => (kk =? 9) || kind_is_int kk = true | _ => True end.
+
+  Definition P_msg (p : list pstep) : Prop :=
+    forall isroot buf rd lbl num name fs pre' num0,
+      path_okb p = true ->
+      (lbl = LSingular \/ exists q, lbl = LRepeated q) ->
+      wf_fld S LSingular (TMsg name) (VMsg fs) = true ->
+      msg_entry isroot buf rd pre' (encode_msg fs) ->
+      plen buf < 9223372036854775808 ->
+      refines (plookup S LSingular (TMsg name) num0 (VMsg fs) p)
+              (gbp_loop all_fixes S buf p rd isroot lbl (TMsg name) num).
+
+  (* the cursor is behind the first tag of the records of field num holding v; the message ends with w2 *)
+  Definition P_val (p : list pstep) : Prop :=
+    forall buf pre lbl t num v w0 ws w2,
+      path_okb p = true ->
+      wf_fld S lbl t v = true -> 1 <= num <= MAX_FIELD_NUMBER -> key_kind_ok lbl ->
+      fvals v = w0 :: ws -> inert num w2 ->
+      buf = pre ++ wenc (wfld num v) ++ wenc w2 ->
+      plen buf < 9223372036854775808 ->
+      refines (plookup S lbl t num v p)
+              (gbp_loop all_fixes S buf p (plen pre + plen (tagb num (wt_of_wval w0))) false lbl t num).
+
+  (* what [after] does with a found field value *)
+  Lemma after_field_found p' buf pre lbl t num v w2 :
+    (p' <> [] -> P_val p') -> path_okb p' = true ->
+    wf_fld S lbl t v = true -> 1 <= num <= MAX_FIELD_NUMBER -> key_kind_ok lbl -> inert num w2 ->
+    buf = pre ++ wenc (wfld num v) ++ wenc w2 -> plen buf < 9223372036854775808 ->
+    refines (plookup S lbl t num v p')
+            (after_f S p' buf (SFound (plen pre) (plen pre)) lbl t num (node_type lbl t)).
+  Proof.
+    intros IH Hp Hwf Hn Hkk Hin Eb Hlen. unfold after_f. destruct p' as [|s' p''].
+    - cbn [is_nil plookup]. unfold refines. cbn [expected_gout]. left. subst buf. symmetry. apply (val_final S); assumption.
+    - cbn [is_nil].
+      destruct (val_tag S lbl t num v pre (wenc w2) Hwf Hn) as [w0 [ws [Ef [_ [_ [Hc _]]]]]].
+      rewrite Eb at 1. rewrite Hc. apply (IH ltac:(discriminate) buf pre lbl t num v w0 ws w2); assumption.
+  Qed.
+
+  Lemma P_msg_step s p' : (p' <> [] -> P_val p') -> P_msg (s :: p').
+  Proof.
+    intros IH isroot buf rd lbl num name fs pre' num0 Hp Hlbl Hwf Hent Hlen.
+    destruct (path_okb_tail _ _ Hp) as [_ Hp'].
+    destruct (wf_msg_facts _ _ _ Hwf) as [md [Hfind [Hnd [_ Hfs]]]].
+    pose proof (schema_md _ _ _ HS Hfind) as Hmd.
+    pose proof (msg_entry_plen _ _ _ _ _ Hent) as Hle.
+    destruct (is_field_step s) eqn:Hfs'.
+    2:{ unfold refines. cbn [plookup]. rewrite Hfs'. cbn [negb expected_gout]. exact I. }
+    rewrite (gbp_field_unfold S buf s p' rd isroot lbl name num md pre' (encode_msg fs) Hfs' Hlbl Hfind Hent). cbv zeta.
+    cbn [plookup]. rewrite Hfs'. cbn [negb]. rewrite Hfind.
+    (* the common case: the step names a declared field fd *)
+    assert (Hcase : forall fd, step_field md s = Some fd ->
+      refines (match assoc_z (fd_num fd) fs with
+               | Some x => plookup S (fd_label fd) (fd_type fd) (fd_num fd) x p'
+               | None => LNotFound (is_nil p') end)
+              (after_f S p' (pre' ++ encode_msg fs)
+                 (search_field_id (Datatypes.S (length (pre' ++ encode_msg fs))) (pre' ++ encode_msg fs) (plen pre') (fd_num fd)
+                                  (plen pre' + plen (encode_msg fs)))
+                 (fd_label fd) (fd_type fd) (fd_num fd) (node_type (fd_label fd) (fd_type fd)))).
+    { intros fd Hsf. destruct (step_field_facts _ _ _ Hmd Hsf) as [Hff Hok].
+      destruct (assoc_z (fd_num fd) fs) as [v|] eqn:Ha.
+      - destruct (msg_search_found S md fs pre' (fd_num fd) v Hfs Hnd Ha) as [W1 [W2 [fd' [Hff' [Hid [Hv [Eb [Hin Hsr]]]]]]]].
+        rewrite Hff in Hff'. inversion Hff'; subst fd'. rewrite Hsr.
+        apply (after_field_found p' _ (pre' ++ wenc W1) _ _ _ v W2 IH Hp' Hv Hid); [|exact Hin|exact Eb|lia].
+        unfold key_kind_ok, field_okb in *. destruct (fd_label fd); auto.
+      - rewrite (msg_search_none S md fs pre' (fd_num fd) Hfs Ha). unfold after_f, refines. cbn [expected_gout]. left. reflexivity. }
+    destruct s as [n|nm| | |]; try discriminate; cbn [step_field] in *.
+    - destruct (find_field md n) as [fd|] eqn:Hff; [apply (Hcase fd eq_refl)|].
+      assert (Ha : assoc_z n fs = None).
+      { destruct (assoc_z n fs) as [v|] eqn:Ha; [|reflexivity]. exfalso.
+        destruct (assoc_z_split _ _ _ Ha) as [fs1 [fs2 [E _]]]. subst fs. destruct (fields_wf_app _ _ _ _ Hfs) as [_ H2].
+        inversion H2 as [|? ? [fd [Hfd _]] _]; subst. cbn [fst] in Hfd. congruence. }
+      rewrite (msg_search_none S md fs pre' n Hfs Ha). unfold after_f, refines. cbn [expected_gout].
+      destruct (is_nil p'); cbn; auto.
+    - destruct (find_field_name md nm) as [fd|] eqn:Hff; [apply (Hcase fd eq_refl)|].
+      unfold refines. cbn [expected_gout]. right. left. reflexivity.
+  Qed.
+End Main.
